@@ -6,7 +6,7 @@
 From CB Require Import Spec Unstable.
 From Coq Require Import Permutation.
 From CBP Require Import Step RefDefs C02Lemmas Arith AbsLemmas AllOps FaultDefs FaultPrims FaultDropA FaultDropB FaultUser
-     Iters DrainP ExtendIo CmpHash Ctors PhysMoves MoreOps UnstableEq Access Views RefTruncate FillExtend FaultFrame SpecCorollaries ValueCorollaries FaultGeneric FaultHistory FaultConserve FaultDebugOps LedgerSpec.
+     Iters DrainP ExtendIo CmpHash Ctors PhysMoves MoreOps UnstableEq Access Views RefTruncate FillExtend FaultFrame SpecCorollaries ValueCorollaries FaultGeneric FaultHistory FaultConserve FaultDebugOps ContigAfter LedgerSpec.
 
 
 Theorem C10_drain_forget :
